@@ -79,9 +79,14 @@ CHECKS = {
   "Every record graph the harness builds on the real interpreter - per-field palettes, wrong kinds and undeclared keys at every position, every pair/triple of reference positions sharing a record, cycles, seeded random graphs - is converted with togo and through identity Go methods; TLC computes the required Go value (Fill) from the graph alone and compares it with the reflection dump (object identities included) and the record handed back (MatchStruct); the spec itself is model-checked for NoLoss / OneObject / UnknownKey / WrongKind over all records with <= 2 fields and a sharing pool.",
   "finite palettes; nil/symbol into basic fields, integral floats into integer fields, unsigned fields and sharing among returned records are not judged; cyclic graphs are converted in child processes; two open known findings (fields dropped on the way back; cyclic Go values on the way back)",
   "TLA+ functional spec over a Go type algebra (GoInterop); TLC exploration + TLC trace validation of recorded conversions; named deviations"),
+ "C08": ("Sandbox", "exploration",
+  "Every name of the live universe (everything bound in the bare / StandardSetup / unsandboxed interpreters, the bindings of the real zygo -sandbox binary, macros, the special forms parsed out of GenerateCallBySymbol, reserved words, repl commands) x 8 derivation routes (direct, alias, eval of a quoted form, str2sym+eval, apply, macro body, infix builder, closure body) x 16 argument shapes x {bare sandbox, sandbox+StandardSetup, cmd/zygo -sandbox}, plus seeded grammar-generated programs, executed in worker subprocesses / on the real binary in a throw-away directory with file, path, shell-marker, environment and exit canaries (inotify); TLC validates every recorded probe against SandboxTrace (event set empty), enumerates the vectors, model-checks the derivation closure (NoMinting, DeadStaysDead) over the live universe; an unsandboxed control must show every capability of every known primitive through every route.",
+  "only canary effects are watched (no network/clock/stdout); crashes (Go panics) are C01's, not exit events; existence probing is not counted as a read; cmd macros assumed equal to std",
+  "TLA+ spec (Sandbox); TLC exploration of the derivation closure over the dumped universe + vector generation + TLC trace validation of subprocess probes; control/sensitivity check"),
 }
 
 ENGINES = [
+ {"name": "Sandbox", "path": "spec/Sandbox.tla spec/MCSandbox.tla spec/SandboxTrace.tla", "serves_properties": ["C08"], "kind_free_text": "TLA+ capability/derivation model over the live universe + trace specification, TLC"},
  {"name": "GoInterop", "path": "spec/GoInterop.tla spec/MCGoInterop.tla spec/GoInteropTrace.tla", "serves_properties": ["C10"], "kind_free_text": "TLA+ functional spec over a Go type algebra + trace specification, TLC"},
  {"name": "Pratt", "path": "spec/Pratt.tla spec/MCPratt.tla spec/MCPrattForms.tla spec/PrattTrace.tla", "serves_properties": ["C06"], "kind_free_text": "TLA+ declarative grammar + algorithm model + trace specification, TLC"},
  {"name": "CrashTrace", "path": "spec/CrashTrace.tla", "serves_properties": ["C01"], "kind_free_text": "TLA+ trace specification of the entry-point outcome machine, TLC"},
